@@ -61,7 +61,7 @@ def discriminant_value(I, st, inst, args):
 def assume(I, st, inst, args):
     c = args[0]
     if is_sym(c):
-        st.pc.append(c)
+        I.add_pc(st, c)
     return UNIT
 
 
